@@ -776,6 +776,13 @@ def _prepare_results(results, data, debug):
         Nicely formatted DataFrame of the results.
 
     """
+    # Functions that depend on parameters only return a scalar. Repeat it for every row;
+    # otherwise, pandas cannot build a DataFrame if all requested targets are scalars.
+    n_rows = len(data["p_id"])
+    results = {
+        name: np.full(n_rows, result) if np.ndim(result) == 0 else result
+        for name, result in results.items()
+    }
     if debug:
         results = pd.DataFrame({**data, **results})
     else:
